@@ -1,7 +1,9 @@
 CONSTANTS
-  Catalog <- CatalogRows
+  Groups <- GroupsRows
+  CatalogOf <- CatalogRows
   Prios <- PriosRows
-  FrameSeq <- FrameSeqRows
+  FramesOf <- FramesRows
+  AltOf <- AltRows
   N = 1
   Alternate = TRUE
   D = 2
